@@ -1,12 +1,23 @@
-//! `std::thread` replacement for the library's progress protocol (simulation only for
-//! spawn/scope; `sleep` advances the simulated clock).
+//! `std::thread` replacement for the library's progress protocol. Dual mode: inside a simulation
+//! every thread is a coroutine under the seeded scheduler; outside one the calls go to real OS
+//! threads (used for the fidelity cross-check of the seams: the same protocol code must give the
+//! same results on real threads).
 
-pub use shuttle::thread::{JoinHandle, Scope, ScopedJoinHandle};
 use std::time::Duration;
 
-fn need_sim(what: &str) {
-    if !crate::in_sim() {
-        panic!("HARNESS-ERROR: mcmc_sim::thread::{what} used outside a simulation");
+// the rest of std::thread, unchanged (threads started through `Builder` are real OS threads)
+pub use std::thread::{available_parallelism, current, panicking, park, park_timeout, AccessError, Builder, LocalKey, Result, Thread, ThreadId};
+
+pub enum JoinHandle<T> {
+    Sim(shuttle::thread::JoinHandle<T>),
+    Std(std::thread::JoinHandle<T>),
+}
+impl<T> JoinHandle<T> {
+    pub fn join(self) -> std::thread::Result<T> {
+        match self {
+            JoinHandle::Sim(h) => h.join(),
+            JoinHandle::Std(h) => h.join(),
+        }
     }
 }
 
@@ -15,20 +26,57 @@ where
     F: FnOnce() -> T + Send + 'static,
     T: Send + 'static,
 {
-    need_sim("spawn");
-    crate::sim::event("spawn", 0);
-    shuttle::thread::spawn(f)
+    if crate::in_sim() {
+        crate::sim::event("spawn", 0);
+        JoinHandle::Sim(shuttle::thread::spawn(f))
+    } else {
+        JoinHandle::Std(std::thread::spawn(f))
+    }
+}
+
+pub enum Scope<'scope, 'env: 'scope> {
+    Sim(&'scope shuttle::thread::Scope<'scope, 'env>),
+    Std(&'scope std::thread::Scope<'scope, 'env>),
+}
+pub enum ScopedJoinHandle<'scope, T> {
+    Sim(shuttle::thread::ScopedJoinHandle<'scope, T>),
+    Std(std::thread::ScopedJoinHandle<'scope, T>),
+}
+impl<'scope, T> ScopedJoinHandle<'scope, T> {
+    pub fn join(self) -> std::thread::Result<T> {
+        match self {
+            ScopedJoinHandle::Sim(h) => h.join(),
+            ScopedJoinHandle::Std(h) => h.join(),
+        }
+    }
+}
+impl<'scope, 'env> Scope<'scope, 'env> {
+    pub fn spawn<F, T>(&'scope self, f: F) -> ScopedJoinHandle<'scope, T>
+    where
+        F: FnOnce() -> T + Send + 'scope,
+        T: Send + 'scope,
+    {
+        match self {
+            Scope::Sim(s) => ScopedJoinHandle::Sim(s.spawn(f)),
+            Scope::Std(s) => ScopedJoinHandle::Std(s.spawn(f)),
+        }
+    }
 }
 
 pub fn scope<'env, F, T>(f: F) -> T
 where
     F: for<'scope> FnOnce(&'scope Scope<'scope, 'env>) -> T,
 {
-    need_sim("scope");
-    shuttle::thread::scope(f)
+    // the wrapper has to live for 'scope: a 16-byte leak per call keeps the borrow checker honest
+    if crate::in_sim() {
+        shuttle::thread::scope(|s| f(Box::leak(Box::new(Scope::Sim(s)))))
+    } else {
+        std::thread::scope(|s| f(Box::leak(Box::new(Scope::Std(s)))))
+    }
 }
 
-/// Advance the simulated clock by `d` and let the scheduler pick the next task.
+/// Inside a simulation: advance the simulated clock by `d` and yield. Outside: advance the
+/// private fake clock and give up the time slice (no real sleep: real time is never consulted).
 pub fn sleep(d: Duration) {
     let ns = d.as_nanos().min(u64::MAX as u128) as u64;
     crate::sim::clock_advance(ns);
@@ -40,11 +88,15 @@ pub fn sleep(d: Duration) {
         // random scheduler ignores the hint). Scheduling points inside worker code use a plain
         // switch instead (see `sched_point`), so PCT keeps its priorities there.
         shuttle::thread::yield_now();
+    } else {
+        std::thread::yield_now();
     }
 }
 
 pub fn yield_now() {
     if crate::in_sim() {
         shuttle::thread::yield_now();
+    } else {
+        std::thread::yield_now();
     }
 }
